@@ -87,12 +87,16 @@ class ConcurrentTestSuite(unittest.TestSuite):
                 reader_thread = threading.Thread(
                     target=self._run_test, args=(test, process_result, queue)
                 )
-                threads[test] = reader_thread, process_result
+                # Keyed by the thread, not by the sub-suite: sub-suites may be
+                # unhashable (unittest.TestSuite), equal to one another
+                # (TestCases compare by type and method name) or the very
+                # same object yielded twice.
+                threads[reader_thread] = reader_thread, process_result
                 reader_thread.start()
             while threads:
-                finished_test = queue.get()
-                threads[finished_test][0].join()
-                del threads[finished_test]
+                finished_thread = queue.get()
+                threads[finished_thread][0].join()
+                del threads[finished_thread]
         except:
             for thread, process_result in threads.values():
                 process_result.stop()
@@ -107,7 +111,7 @@ class ConcurrentTestSuite(unittest.TestSuite):
                 case = testtools.ErrorHolder("broken-runner", error=sys.exc_info())
                 case.run(process_result)
         finally:
-            queue.put(test)
+            queue.put(threading.current_thread())
 
 
 class ConcurrentStreamTestSuite:
